@@ -35,7 +35,7 @@ concurrent connections; per connection a list of call sizes sent one way and rep
 other way at the same time, sizes from 1 B to 1 MiB with most above the kernel socket buffer in \
 the large lane; reader pacing: 0..4 cooperative yields between receives on either side). Oracle: \
 the receiver decodes exactly the sent sequence (index, length and every byte of a position-dependent \
-pattern), connection ids are pairwise distinct. Cancellation scenario = a call of generated size \
+pattern), connection ids are pairwise distinct, a listener built from an inherited descriptor (handed over in blocking mode) is non-blocking like a bound one. Cancellation scenario = a call of generated size \
 (64 KiB..1 MiB) is sent while the peer does not read, the send future is polled by hand until it is \
 Pending, the peer reads a generated number of bytes, the future is polled again and then dropped; \
 afterwards a second call is sent normally while the peer reads everything. Oracle: the peer's \
@@ -167,6 +167,16 @@ fn sock_path(tag: u64) -> PathBuf {
     dir.join(format!("s{}-{tag:x}.sock", std::process::id()))
 }
 
+/// Is the descriptor in non-blocking mode? (Read from /proc: an async listener built from an
+/// inherited descriptor must not leave it blocking, or `accept` would block the executor thread
+/// instead of returning Pending.)
+fn fd_is_nonblocking(raw: i32) -> Option<bool> {
+    let info = std::fs::read_to_string(format!("/proc/self/fdinfo/{raw}")).ok()?;
+    let flags = info.lines().find_map(|l| l.strip_prefix("flags:"))?.trim();
+    let v = u32::from_str_radix(flags, 8).ok()?;
+    Some(v & 0o4000 != 0)
+}
+
 fn check_ids(ids: &[usize]) -> Result<(), String> {
     let mut s = ids.to_vec();
     s.sort_unstable();
@@ -204,7 +214,12 @@ fn tokio_transfer(multi: bool, transport: Transport, plans: &[Plan], tag: u64) -
                 } else {
                     let std_l = std::os::unix::net::UnixListener::bind(&path).map_err(|e| e.to_string())?;
                     let fd: OwnedFd = std_l.into();
-                    zlink_tokio::unix::Listener::try_from(fd).map_err(|e| format!("try_from(fd): {e:?}"))?
+                    let raw = std::os::fd::AsRawFd::as_raw_fd(&fd);
+                    let l = zlink_tokio::unix::Listener::try_from(fd).map_err(|e| format!("try_from(fd): {e:?}"))?;
+                    if fd_is_nonblocking(raw) == Some(false) {
+                        return Err("a listener built from an inherited (blocking) descriptor left it in blocking mode: accept() would block the executor thread instead of returning Pending".to_string());
+                    }
+                    l
                 };
                 for _ in &plans {
                     let (client, server) = futures_util::join!(zlink_tokio::unix::connect(&path), listener.accept());
@@ -261,7 +276,12 @@ fn smol_transfer(transport: Transport, plans: &[Plan], tag: u64) -> Result<(), S
                 } else {
                     let std_l = std::os::unix::net::UnixListener::bind(&path).map_err(|e| e.to_string())?;
                     let fd: OwnedFd = std_l.into();
-                    zlink_smol::unix::Listener::try_from(fd).map_err(|e| format!("try_from(fd): {e:?}"))?
+                    let raw = std::os::fd::AsRawFd::as_raw_fd(&fd);
+                    let l = zlink_smol::unix::Listener::try_from(fd).map_err(|e| format!("try_from(fd): {e:?}"))?;
+                    if fd_is_nonblocking(raw) == Some(false) {
+                        return Err("a listener built from an inherited (blocking) descriptor left it in blocking mode: accept() would block the executor thread instead of returning Pending".to_string());
+                    }
+                    l
                 };
                 for _ in plans {
                     let (client, server) = futures_util::join!(zlink_smol::unix::connect(&path), listener.accept());
@@ -561,6 +581,7 @@ pub fn run(ctx: &Ctx) -> i32 {
                     let sig = match sc {
                         Scenario::Cancel { .. } => "send-cancelled-after-partial-write",
                         Scenario::Transfer { .. } if msg.contains("ids are not") => "connection-ids-not-distinct",
+                        Scenario::Transfer { .. } if msg.contains("blocking mode") => "inherited-listener-left-blocking",
                         Scenario::Transfer { .. } => "transfer-lost-or-corrupted",
                     };
                     viol.push(Violation { sig: sig.into(), lane: "scenario".into(), case: serde_json::to_value(sc).unwrap(), message: msg });
